@@ -209,6 +209,14 @@ func TestC01(t *testing.T) {
 	regressFixed(t, c, fs, "C01")
 	cfg := defaultGenCfg()
 	cfg.WrongFrozenPct = 6
+	// a small share of adversarial peer blocks (forged award / unsigned / flag-carrying / read-dropping transactions,
+	// candidates of the pool path delivered in a block): refused blocks must leave the state a function of the chain
+	cfg.Mix = func(rt *rapid.T, nm *hx.NodeMachine) hx.NOp {
+		if rapid.IntRange(0, 11).Draw(rt, "advblock") == 0 {
+			return genAdvPeer(rt, nm, cfg)
+		}
+		return genNodeOp(rt, nm, cfg)
+	}
 	c.Check(t, "node-machine", hx.N(600, 4000), func(cs *hx.Case) {
 		runNodeCase(cs, fs, cfg, func(nm *hx.NodeMachine, op hx.NOp, i int) error {
 			if (op.Op == "walk" || op.Op == "sync") && nm.LastOutcome != "skipped" && nm.LastUndo > 0 {
